@@ -58,6 +58,11 @@ func genC11(t *rapid.T) c11Case {
 			c.Target = "other"
 		} else {
 			c.OwnPkg = pkgs[rapid.IntRange(0, len(pkgs)-1).Draw(t, "ownpkg")]
+			if fxStd[c.OwnPkg] {
+				// a standard-library package is never the target of generated code
+				c.OwnPkg = ""
+				c.Target = "other"
+			}
 			// beta/v1 imports alpha: a type that mentions beta cannot be written inside package alpha (import cycle)
 			if !ownTargetPossible(c.OwnPkg, func(p string) bool { return seen[p] }) {
 				// the importing package is always a possible target
